@@ -1167,6 +1167,15 @@ func runPipeline(t ev.TB, c pipeCase) {
 			lines++
 			ev.Label(fmt.Sprintf("pipe_line_maxdelta=%d", st.maxDelta))
 			ev.Label(fmt.Sprintf("pipe_line_runs=%d", min(len(wl.Line), 6)))
+			if len(wl.Line) > 16 {
+				ev.Label("pipe_line_runs>16")
+			}
+			if hasFormat {
+				ev.Label(fmt.Sprintf("pipe_fmt_line_maxdelta=%d", min(st.maxDelta, 4)))
+				if st.nontrivial {
+					ev.Label(fmt.Sprintf("pipe_fmt_line_nontrivial_maxdelta=%d", min(st.maxDelta, 4)))
+				}
+			}
 			if st.nontrivial {
 				anyNT = true
 				ev.Label("pipe_line_nontrivial")
@@ -1188,7 +1197,7 @@ func runPipeline(t ev.TB, c pipeCase) {
 			break
 		}
 	}
-	ev.Case(anyNT, pipeKey(c), fmt.Sprintf("pipe_para_maxdelta=%d", maxDelta), fmt.Sprintf("pipe_para_lines=%d", min(lines, 5)),
+	ev.Case(anyNT, pipeKey(c), fmt.Sprintf("pipe_para_maxdelta=%d", min(maxDelta, 8)), fmt.Sprintf("pipe_para_lines=%d", min(lines, 5)),
 		map[bool]string{false: "pipe_para_ltr", true: "pipe_para_rtl"}[c.ParaRTL])
 	if ev.WantSample() {
 		ev.Sample(c)
@@ -1258,6 +1267,9 @@ type pgen struct {
 	// LRO around anything, LRE/LRI/FSI around L words), not nested. 2: any initiator around any
 	// content, nested up to depth 2, terminators sometimes missing or of the wrong kind.
 	fmtMode int
+	// irregular: one group of the paragraph at most is left unterminated or gets a terminator of
+	// the wrong kind (every further one would add a nesting level for the rest of the paragraph)
+	irregular bool
 }
 
 func (g *pgen) word(kind int) {
@@ -1343,11 +1355,13 @@ func (g *pgen) group(depth int) {
 	if opener == cLRI || opener == cRLI || opener == cFSI {
 		closer = cPDI
 	}
-	if g.fmtMode == 2 {
-		switch rapid.IntRange(0, 19).Draw(t, "closer") {
-		case 0, 1:
+	if g.fmtMode == 2 && !g.irregular {
+		switch rapid.IntRange(0, 9).Draw(t, "closer") {
+		case 0:
+			g.irregular = true
 			return // not terminated: lasts to the end of the paragraph (or of the enclosing isolate)
-		case 2:
+		case 1:
+			g.irregular = true
 			closer = cPDF + cPDI - closer // terminator of the other kind: has no effect on this group
 		}
 	}
